@@ -134,7 +134,7 @@ func init() {
 		Assumptions: []string{"source documents that the parser or checker rejects are skipped (precondition of the property)", "the deprecated template based DumpIDL_V1 is outside (html/template not encodable)"},
 		Harnesses: []Harness{
 			{Func: "H_C17_literal", Quick: tuples3(seq(0, 11), seq(0, 1), seq(0, 3)), Thorough: tuples3(seq(0, 11), seq(0, 1), seq(0, 4)), Covers: []string{"roundtrip", "rejected"}},
-			{Func: "H_C17_literal_pre", Quick: tuples3(seq(0, 4), seq(0, 1), seq(1, 2)), Covers: []string{"roundtrip"}},
+			{Func: "H_C17_literal_pre", Quick: tuples3(seq(0, 8), seq(0, 1), seq(1, 3)), Thorough: tuples3(seq(0, 8), seq(0, 1), seq(1, 4)), Covers: []string{"roundtrip"}},
 			{Func: "H_C17_numbers", Quick: rng(0, 5), Covers: []string{"end"}},
 			{Func: "H_C17_structure", Covers: []string{"end"}},
 		},
@@ -163,12 +163,14 @@ func init() {
 		Diff:        []string{"D_C14_1", "D_C14_2", "D_C14_3", "D_C14_4"},
 		Functions: []string{"fieldmask.NewFieldMask", "fieldmask.(*FieldMask).addPath", "fieldmask.(*pathIterator).Next/lit/str", "fieldmask.newPathToken",
 			"fieldmask.(*FieldMask).Field/Int/Str/All/GetPath/PathInMask", "fieldmask.fieldMap/intMap/strMap", "thrift_reflection.RegisterAST + lookups", "strconv.Atoi/Unquote"},
-		Bounds: "path = fixed context prefix (11 contexts) + N free bytes (quick N<=3, thorough N<=4)",
+		Bounds: "totality: fixed context prefix (11 contexts) + N free bytes (quick N<=2, thorough N<=4), digit strings up to 20 digits; semantics: masks of two field paths over 15 declared ids (incl. 62..65 around the head/tail storage split, 300) with a FREE int16 query id, white and black list; list indices / int keys written with free digits and a string key with a free byte, in three orders/groupings, queried with a FREE index / key",
 		Assumptions: []string{"fieldmask.newPathValueStr/pathValue.Str (string header smuggled through unsafe.Pointer) are modelled at function level",
 			"math/rand.Read is a stub returning a fixed pattern", "JSON (un)marshalling is outside (encoding/json is not encodable)"},
 		Harnesses: []Harness{
 			{Func: "H_C14_total", Quick: cross(seq(0, 10), 0, 2), Thorough: cross(seq(0, 10), 0, 4), Covers: []string{"accepted", "rejected"}},
 			{Func: "H_C14_digits", Quick: digitTuples(), Covers: []string{"accepted", "rejected"}},
+			{Func: "H_C14_field", Quick: rng(0, 1), Covers: []string{"in", "out"}},
+			{Func: "H_C14_index", Quick: rng(0, 1), Covers: []string{"end", "key"}},
 		},
 	})
 }
